@@ -13,6 +13,9 @@ CHECKS['C03'] = dict(cat='exploration', tech='Hypothesis-generated configuration
 CHECKS['C04'] = dict(cat='exploration', tech='Hypothesis-generated configurations with price/PTC/carbon/construction-year layers; oracle: independent rebuild of cash flow, running sum, NPV/IRR/VIR/MOIC/payback relations from the reported series',
              text='Generated runs (every end-use, construction years 1..14, lifetime 1..100, escalation/PTC/carbon settings, both NPV conventions, with and without add-ons); the yearly cash flow is rebuilt from reported energy x price + carbon - O&M and -CAPEX/cy, the cumulative must be its running sum, and NPV, IRR (must zero the NPV), VIR, MOIC and payback (crossing year / N/A) are recomputed; the same metric relations are applied to the add-on project series.',
              note='Sampled inputs; runs with non-positive capital cost and S-DAC-GT excluded by rule and counted; known finding F-C04-a (add-on IRR fraction) is matched narrowly by clause+scope+explanation.', ref='2/C04')
+CHECKS['C01'] = dict(cat='exploration', tech='Hypothesis-generated configurations; oracle: independent scalar-loop reference of the FCR / Standard / BICYCLE levelized-cost formulas applied to the run\'s own reported CCap, Coam, allocation ratio, other annual costs and yearly energy series',
+             text='Generated runs over econ model x end-use x plant type x reservoir model with cost, price and add-on layers and year-to-year varying energy; LCOE/LCOH/LCOC are recomputed by a reference written independently of the code (plain loops, rel 1e-9). Deviations are classified by which alternative cost term explains them, so the three recorded findings (F-C01-a/b/c) are matched narrowly and anything else is reported.',
+             note='Trusts the documented reading of other annual costs (pumping for heat-only end uses, heat-pump electricity, peaking fuel / boiler efficiency). Sampled inputs; S-DAC-GT, SBT/SUTRA/AGS economics and NaN-valued degenerate runs excluded and counted.', ref='2/C01')
 NOT_YET = {}
 def main():
     props = [json.loads(l) for l in open(os.path.join(HERE, 'properties.jsonl'))]
